@@ -1380,6 +1380,9 @@ CORPUS_DATA = [{"a": 1, "b": 2, "c": 3, "d": "s", "e": {"f": "k"}, "f": 1, "g": 
                {"a": False, "b": None, "c": 0, "d": False, "e": None, "l": []}]
 
 
+MODELLED_ERRORS = ("DisabledTagError", "RequiredBlockError", "TemplateInheritanceError")
+
+
 def oracle_terms(dec: list[int]) -> str:
     return C.clist([str(d) for d in dec], "N")
 
@@ -1439,7 +1442,7 @@ def main(chk: C.Check, build: C.Build) -> None:
     stats = {"programs": 0, "unparsable": 0, "static_errors": 0, "renders": 0, "renders_completed": 0,
              "render_errors": {}, "events": 0, "lookups": 0, "global_lookups": 0, "filters": 0, "tags": 0,
              "decisions": 0, "with_partials": 0, "with_inheritance": 0, "tag_nodes": 0, "tag_nodes_rendered": 0,
-             "trace_cases": 0}
+             "trace_cases": 0, "error_trace_cases": 0}
     nontrivial: set[str] = set()
     seen_programs: set[str] = set()
     samples: list[Any] = []
@@ -1532,6 +1535,15 @@ def main(chk: C.Check, build: C.Build) -> None:
                                                                  "events": [e[:3] for e in evs]})
                 else:
                     stats["render_errors"][run["status"]] = stats["render_errors"].get(run["status"], 0) + 1
+                    if run["status"] in MODELLED_ERRORS and stats["error_trace_cases"] < (400 if thorough else 40):
+                        me = model_events(eng, evs)
+                        if me is not None:
+                            stats["error_trace_cases"] += 1
+                            parts.append(f"chk_trace_err L (fun _ => []) {oracle_terms(run['decisions'])} "
+                                         f"{C.clist(me, 'event')} {run['status']}")
+                            model_t.append(f"model_trace L (fun _ => []) {oracle_terms(run['decisions'])}")
+                            replay.setdefault("renders", []).append({"data": d, "decisions": run["decisions"],
+                                                                     "status": run["status"]})
             if prog_events and len(rendered) >= 2:
                 nontrivial.add(key)
             stats["tag_nodes"] += len(tag_ids)
